@@ -16,6 +16,8 @@ import PasskeyVerif.Model.Hid
 import PasskeyVerif.Model.AuthData
 import PasskeyVerif.Model.Decoders
 import PasskeyVerif.Base.Base64
+import PasskeyVerif.Lemmas.Bounds
+import PasskeyVerif.Model.AuthDataCbor
 namespace PasskeyVerif.C15
 open PasskeyVerif
 
@@ -162,5 +164,33 @@ theorem C15_fingerprint_length (s : String) (h : Decoders.validFingerprint s = t
   unfold Decoders.validFingerprint at h
   have := C15_fingerprint_shape s.toList 32 (by simpa using h)
   omega
+
+/-- **CBOR values are no larger than the bytes they were read from** (the modelled definite-length reader,
+for every byte string and every fuel): one unit per item plus its payload bytes, and what is left over,
+never exceed the input — a declared length of 2^64 elements with nothing behind it builds nothing. -/
+theorem C15_cbor_value_within_input (fuel : Nat) (bs : List UInt8) (x : Cbor.Item) (r : List UInt8)
+    (h : Cbor.decode fuel bs = some (x, r)) : x.size + r.length ≤ bs.length :=
+  (Cbor.decode_size_all fuel).1 bs x r h
+
+/-- the same for a declared element count `n`: a list of `n` items is only returned if at least `n` bytes follow -/
+theorem C15_cbor_declared_count_needs_bytes (fuel n : Nat) (bs : List UInt8) (xs : List Cbor.Item) (r : List UInt8)
+    (h : Cbor.decodeList fuel n bs = some (xs, r)) : Cbor.sizeList xs + r.length ≤ bs.length :=
+  (Cbor.decode_size_all fuel).2.1 n bs xs r h
+
+/-- **Base64 members**: the decoded bytes of a text of `k` characters number at most `3k/4`. -/
+theorem C15_base64_output_within_input (s : String) (bs : List UInt8) (h : Base64.decodeLenient s = some bs) :
+    4 * bs.length ≤ 3 * s.toList.length := Base64.decodeLenient_length s bs h
+
+/-- **Authenticator data**: whatever the CBOR scanner and the key check answer, the parts of an accepted
+value (RP ID hash, flags and counter, AAGUID, credential id, key bytes, extension bytes) together hold no
+more bytes than the input has. -/
+theorem C15_authdata_parts_within_input (skip : List UInt8 → Option Nat) (vk : List UInt8 → Bool) (v : List UInt8)
+    (a : AuthData.AuthData) (h : AuthData.AuthData.fromSlice skip vk v = .ok a) : a.held ≤ v.length :=
+  AuthData.AuthData.fromSlice_bound skip vk v a h
+
+/-- the hypotheses are met by a real value: a map with a byte string and a nested array -/
+example : Cbor.decode 10 [0xa1, 0x01, 0x82, 0x41, 0xff, 0x20, 0x99] =
+    some (.map [(.uint 1, .array [.bytes [0xff], .nint 0])], [0x99]) ∧
+    (Cbor.Item.map [(.uint 1, .array [.bytes [0xff], .nint 0])]).size = 6 := ⟨by rfl, by rfl⟩
 
 end PasskeyVerif.C15
